@@ -433,7 +433,10 @@ func init() {
 }
 
 // Placements of the offending construct.
-var MisusePlacements = []string{"top", "nested", "sibling_file", "imported_file"}
+// "types_elsewhere" / "types_imported": the offending message in the service file, every other declaration of the rule (the
+// child messages, the enum with custom values) in another file of the package - generated too, or only imported. MisuseSpec
+// returns nil for these placements when the rule declares nothing but the offending message.
+var MisusePlacements = []string{"top", "nested", "sibling_file", "imported_file", "types_elsewhere", "types_imported"}
 
 // MisuseSpec builds the spec for a rule, placement and surrounding (alone / among valid content).
 func MisuseSpec(mu Misuse, placement string, among bool) *spec.Spec {
@@ -500,6 +503,29 @@ func MisuseSpec(mu Misuse, placement string, among bool) *spec.Spec {
 			f.Services = append(f.Services, vs)
 		}
 		s = spec.One(name, f)
+	case "types_elsewhere", "types_imported":
+		var bad, others []*spec.Message
+		for _, m := range msgs {
+			if m.Name == "Bad" {
+				bad = append(bad, m)
+			} else {
+				others = append(others, m)
+			}
+		}
+		if len(bad) == 0 || (len(others) == 0 && len(enums) == 0) {
+			return nil
+		}
+		pkg := "v" + name
+		lib := &spec.File{Path: name + "_types.proto", Package: pkg, Messages: others, Enums: enums}
+		main := &spec.File{Path: name + ".proto", Package: pkg, Imports: []string{lib.Path},
+			Messages: append(vm, bad...), Enums: ve, Services: []*spec.Service{useSvc("Bad")}}
+		if vs != nil {
+			main.Services = append(main.Services, vs)
+		}
+		s = &spec.Spec{Name: name, Files: []*spec.File{lib, main}}
+		if placement == "types_imported" {
+			s.Generate = []string{main.Path}
+		}
 	case "sibling_file", "imported_file":
 		pkg := "v" + name
 		lib := &spec.File{Path: name + "_lib.proto", Package: pkg, Messages: msgs, Enums: enums}
